@@ -5,6 +5,7 @@ import PhysisModel.Model.MdlWrite
 import PhysisModel.Spec.MdlEdit
 import PhysisModel.Proofs.MdlEditParse
 import PhysisModel.Proofs.MdlDriverTie
+import PhysisModel.Proofs.MdlEditRedundant
 /-!
 # C07 — written models re-read as the same model, including after edits
 -/
@@ -326,5 +327,299 @@ theorem c07_driver_calls (a a' : AbstractModel) (es : List AEdit) (h : applyEdit
     ∀ (cs : List Driver.C07.CEdit) (m : MDL),
       cs.foldlM Driver.C07.applyCEdit m = (cs.map toEdit).foldlM Mdl.applyEdit m :=
   ⟨concretizeAll_eq es a a' h, foldlM_applyCEdit⟩
+
+end Physis.C07
+
+/-! ### redundant header copies: the writer (wredun) -/
+namespace Physis.C07
+open Physis Physis.Mdl Physis.Spec.Mdl Physis.SoftFloat
+
+/-! A `.mdl` file stores offsets, sizes and the LOD count twice; `Spec/MdlRedundant.lean` lists which
+copy `MDL::from_existing` uses and defines `encodeMdlR m ρ`, the file of `m` in which every copy the
+reader does **not** use holds what `ρ` says (`c06_parse_redundant_partial`: it parses to the header
+records as stored and to the geometry of `m`).  This block is the writer's half.  What
+`write_to_buffer` / `update_headers` do with the copies, found by reading `Model/MdlWrite.lean`
+against `src/model.rs`:
+
+| copy | `write_to_buffer` | `update_headers` (end of every edit) |
+|---|---|---|
+| `MeshLod.vertexDataOffset` (read) | seek target of every vertex element | recomputed |
+| `FileHeader.indexOffsets` (read) | seek target of the index data | recomputed (parsed LODs) |
+| `MeshLod.indexDataOffset`, `edgeGeometryDataOffset`, `vertexBufferSize`, `indexBufferSize` | echoed | recomputed |
+| `FileHeader.stackSize`, `runtimeSize` | echoed | recomputed |
+| `FileHeader.vertexOffsets`, `vertexBufferSize`, `indexBufferSize` | echoed **and used for the final length**: the buffer is zero-extended to `max (offset + size)` (`declaredEnd`) | recomputed (parsed LODs only) |
+| `FileHeader.lodCount` | echoed | **used** as the bound of the first loop (mesh start indices, stream offsets); never recomputed |
+
+So no data is *placed* by an unread copy (the seeded change `C07-r6m2`, index seek through
+`MeshLod.indexDataOffset`, is exactly a violation of `c07_writer_reads_same`), the unedited round
+trip can only differ in trailing zeros, and the edited one is sound exactly when the file header's
+LOD count is not smaller than the real one and not larger than 3 — see the witness at the end. -/
+
+/-- **The geometry pass of the writer reads of the two header records what the reader reads, and
+nothing else**: for any two pairs of records that agree on `ReadsSame` (`FileHeader.indexOffsets`;
+per LOD row `meshIndex`, `meshCount`, `vertexDataOffset`; declarations, mesh / sub-mesh / shape
+tables, strings, `ModelHeader.lodCount`, name offsets — `Proofs/MdlRedundant.lean`), any parts and any
+buffer, the vertex / index pass of `write_to_buffer` is the same program run.  In particular no seek
+target depends on `MeshLod.indexDataOffset`, `FileHeader.vertexOffsets` or any stored size.
+(Counterpart of `c06_reader_ignores_redundant`.) -/
+theorem c07_writer_reads_same (fh fh' : FileHeader) (md md' : ModelData)
+    (hrs : ReadsSame fh fh' md md') (lods : List (List Part)) (buf : Array UInt8) :
+    (∀ l, writePart fh' md' l = writePart fh md l) ∧
+    writeLods fh' md' lods buf = writeLods fh md lods buf :=
+  ⟨writePart_congrR hrs, writeLods_congrR hrs lods buf⟩
+
+/-- **The writer echoes every stored copy and moves nothing** — for every well-formed canonical
+model `m` and **every** `ρ`, no side condition: the model `m0` parsed from `encodeMdlR m ρ` is
+written to a buffer that differs from that file by trailing zeros only.  Either the buffer is the
+file followed by zeros (the zero fill up to the largest `offset + size` of the stored file header),
+or the file is the buffer followed by zeros (possible only with three LODs in use: index padding
+behind the last mesh, which the geometry pass never writes and which no declared section end
+covers any more). -/
+theorem c07_write_redundant_bytes (m : AbstractModel) (h : WF m = true) (hcan : Canonical m = true)
+    (ρ : Redundant) (v : View) (hv : view m = some v) :
+    ∃ m0 buf k, fromExisting (encodeMdlR m ρ) = .ok m0 ∧ writeToBuffer m0 = .ok buf ∧
+      (buf = encodeMdlR m ρ ++ zeros k ∨ encodeMdlR m ρ = buf ++ zeros k) := by
+  obtain ⟨buf, k, hw, hk⟩ := write_redundant_bytes m h hcan ρ v hv
+  exact ⟨_, buf, k, parse_encodeR m h (canonical_noWeightsByte4 m hcan) ρ v hv, hw, hk⟩
+
+/-- **Stale copies cannot move or corrupt anything the reader later reads** (parse → write → parse
+on a file whose unread copies are arbitrary).  `m` well-formed and canonical (C07's quantifier, as
+in `c07_write_parse`), `ρ` any replacement of the unread copies with `ρ.keepsTail m`: some section
+end the stored file header declares reaches the end of the file.  Then `from_existing` on
+`encodeMdlR m ρ` returns `m0`; `write_to_buffer m0` returns **that very file followed by zeros** up
+to the declared end — i.e. `encodeMdlR m ρ'` for `ρ' = ρ` (every copy is echoed, none recomputed)
+plus the fill —; and `from_existing` on the written buffer returns `m0` again: the view of `m`
+(vertices, indices, sub-mesh ranges, raw streams, shapes, names), the file header and the
+`model_data` as stored.  No bound on `ρ`: the declared end is computed in unbounded arithmetic
+(`u64` in the code), nothing can wrap.
+
+`keepsTail` is needed because the final length is the one thing the writer takes from unread copies
+(`FileHeader.vertexOffsets`, `vertexBufferSize`, `indexBufferSize`).  It holds for **every** `ρ` when
+fewer than three LODs are in use (`c07_redundant_keeps_tail`).
+
+The full statement
+
+  theorem c07_write_redundant (m) (WF m) (Canonical m) (ρ) (view m = some v) :
+      ∃ m0 buf m1, fromExisting (encodeMdlR m ρ) = .ok m0 ∧ writeToBuffer m0 = .ok buf ∧
+        fromExisting buf = .ok m1 ∧ m1.view = v ∧ m1.fileHeader = m0.fileHeader ∧ m1.modelData = m0.modelData
+
+(no `keepsTail`) is believed true and checked by correspondence (`wredun` cases with `fvs` / `fis`
+deltas on three-LOD models): in the remaining case the written buffer lacks only the zero index
+padding behind the last mesh of LOD 2 (`c07_write_redundant_bytes`), which the reader never reads;
+`c07_write_redundant_reparse` proves it up to "the re-parse returns".
+"partial" also for the excluded classes of the recorded findings, as in `c07_write_parse`. -/
+theorem c07_write_redundant_partial (m : AbstractModel) (h : WF m = true) (hcan : Canonical m = true)
+    (ρ : Redundant) (hend : ρ.keepsTail m = true) (v : View) (hv : view m = some v) :
+    ∃ m0 buf m1, fromExisting (encodeMdlR m ρ) = .ok m0 ∧ writeToBuffer m0 = .ok buf ∧
+      buf = encodeMdlR m ρ ++ zeros (declaredEnd (ρ.fh (fileHeader m)) - (encodeMdlR m ρ).length) ∧
+      fromExisting buf = .ok m1 ∧ m1 = m0 ∧ m1.view = v ∧
+      m1.fileHeader = ρ.fh (fileHeader m) ∧ m1.modelData = ρ.md (modelData m) := by
+  obtain ⟨buf, hw, hb, hp⟩ := write_redundant m h hcan ρ hend v hv
+  exact ⟨_, buf, _, parse_encodeR m h (canonical_noWeightsByte4 m hcan) ρ v hv, hw, hb, hp, rfl, rfl,
+    rfl, rfl⟩
+
+/-- **For every `ρ`, without `keepsTail`**: the model `m0` parsed from `encodeMdlR m ρ` is written,
+and the re-parse of the written buffer, **if it returns at all, returns `m0`** — the view of `m`,
+the header records as stored.  Whatever the unread copies hold, they cannot make the reader report
+a different model after a write; what `c07_write_redundant_partial` adds under `keepsTail` is that
+the re-parse does return.  (Outside `keepsTail` the written buffer is the file minus trailing zero
+index padding, `c07_write_redundant_bytes`; reads are monotone in the file, `afterHeaders_le`.) -/
+theorem c07_write_redundant_reparse (m : AbstractModel) (h : WF m = true) (hcan : Canonical m = true)
+    (ρ : Redundant) (v : View) (hv : view m = some v) :
+    ∃ m0 buf, fromExisting (encodeMdlR m ρ) = .ok m0 ∧ writeToBuffer m0 = .ok buf ∧
+      ∀ m1, fromExisting buf = .ok m1 → m1 = m0 ∧ m1.view = v := by
+  obtain ⟨buf, hw, hp⟩ := write_redundant_reparse m h hcan ρ v hv
+  exact ⟨_, buf, parse_encodeR m h (canonical_noWeightsByte4 m hcan) ρ v hv, hw,
+    fun m1 h1 => ⟨hp m1 h1, by rw [hp m1 h1]; rfl⟩⟩
+
+/-- with fewer than three LODs in use `keepsTail` holds for every `ρ`: the third LOD of a canonical
+model is empty, so its index offset in the file header — a copy the reader uses, hence kept by
+`ρ` — is the length of the file -/
+theorem c07_redundant_keeps_tail (m : AbstractModel) (h : WF m = true) (hcan : Canonical m = true)
+    (hc : m.lodCount.toNat < 3) (ρ : Redundant) : ρ.keepsTail m = true :=
+  keepsTail_of_lodCount m h hcan hc ρ
+
+/-- every unread copy `0xDEADBEEF`, the file header's LOD count `0xEF` (`Properties/C06.lean`
+`sampleRedundant`) -/
+def sampleRedundant : Redundant := Redundant.const 0xDEADBEEF 0xEF
+
+/-- non-vacuity of `c07_write_redundant_partial` / `c07_write_redundant_bytes` /
+`c07_redundant_keeps_tail`: the hypotheses hold on `canonicalSample` with every unread copy
+overwritten, every replaced field differs from the consistent copy, and the declared end lies
+7.4 GB behind the end of the file (the written buffer is the file followed by that many zeros) -/
+example : WF canonicalSample = true ∧ Canonical canonicalSample = true ∧
+    (view canonicalSample).isSome = true ∧ canonicalSample.lodCount.toNat < 3 ∧
+    sampleRedundant.keepsTail canonicalSample = true ∧
+    (let a := fileHeader canonicalSample; let b := sampleRedundant.fh a
+     a.stackSize ≠ b.stackSize ∧ a.runtimeSize ≠ b.runtimeSize ∧ a.vertexOffsets ≠ b.vertexOffsets ∧
+     a.vertexBufferSize ≠ b.vertexBufferSize ∧ a.indexBufferSize ≠ b.indexBufferSize ∧
+     a.lodCount ≠ b.lodCount) ∧
+    (List.zip (modelData canonicalSample).lods (sampleRedundant.md (modelData canonicalSample)).lods).all
+      (fun (a, b) => a.edgeGeometryDataOffset != b.edgeGeometryDataOffset &&
+        a.vertexBufferSize != b.vertexBufferSize && a.indexBufferSize != b.indexBufferSize &&
+        a.indexDataOffset != b.indexDataOffset) = true ∧
+    declaredEnd (sampleRedundant.fh (fileHeader canonicalSample)) = 2 * 0xDEADBEEF ∧
+    (encodeMdlR canonicalSample sampleRedundant).length = 886 := by
+  decide +kernel
+
+/-- hypothesis of `c07_writer_reads_same` on the same records: they agree on every field that is read
+(decided by evaluation) although every replaced field differs -/
+example : ReadsSame (fileHeader canonicalSample) (sampleRedundant.fh (fileHeader canonicalSample))
+    (modelData canonicalSample) (sampleRedundant.md (modelData canonicalSample)) := by
+  decide +kernel
+
+/-- `canonicalSample` with its mesh in all three LODs, all in use -/
+def threeLodSample : AbstractModel :=
+  { canonicalSample with
+    lodCount := 3
+    lods := canonicalSample.lods.take 1 ++ (canonicalSample.lods.take 1 ++ canonicalSample.lods.take 1) }
+
+/-- the case outside `keepsTail` exists (second alternative of `c07_write_redundant_bytes`, the case
+`c07_write_redundant_reparse` is about): three LODs in use, every stored size and the file header's
+vertex offsets 0 — the largest declared end is the start of LOD 2's index section, 16 bytes before
+the end of the 1398-byte file.  (Evaluated with `#eval`, not kernel-checked for time: the written
+buffer has 1388 bytes — the file without the 10 bytes of index padding behind the last mesh — and
+re-parses to the view of the model.) -/
+example : WF threeLodSample = true ∧ Canonical threeLodSample = true ∧
+    (view threeLodSample).isSome = true ∧
+    (Redundant.const 0 3).keepsTail threeLodSample = false ∧
+    (encodeMdlR threeLodSample (Redundant.const 0 3)).length = 1398 ∧
+    declaredEnd ((Redundant.const 0 3).fh (fileHeader threeLodSample)) = 1382 := by
+  decide +kernel
+
+/-- sanity (test, labelled as such): the executable model run on a concrete file with perturbed
+copies (every unread `u32` copy 40, file-header LOD count 7): the written buffer is the file followed
+by zeros up to the declared end 926 (index offset of LOD 2 — kept, the file length — + 40) … -/
+example :
+    ((fromExisting (encodeMdlR canonicalSample (Redundant.const 40 7))).toOption.bind
+        (fun m0 => (writeToBuffer m0).toOption)) =
+      some (encodeMdlR canonicalSample (Redundant.const 40 7) ++ zeros (926 - 886)) := by
+  decide +kernel
+
+/-- … and that buffer re-parses to the view of the model -/
+example :
+    ((fromExisting (encodeMdlR canonicalSample (Redundant.const 40 7) ++ zeros (926 - 886))).map
+        MDL.view).toOption = view canonicalSample := by
+  decide +kernel
+
+/-- **The same after edits.**  `a` well-formed and canonical, `ρ` any replacement of the unread
+copies that keeps the file header's LOD count (`hlc`); history, side conditions and conclusion as in
+`c07_edit_then_parse_partial`, with the session starting from `encodeMdlR a ρ` instead of
+`encodeMdl a`: for every outcome `mE` of the edit calls that returns, `write_to_buffer mE` returns a
+buffer whose re-parse reports exactly `view a'`, with `mE`'s `file_header` and `model_data`.  Stale
+stored stack / runtime sizes, offsets and buffer sizes in either table are all recomputed by the
+`update_headers` call every edit ends with (seeded change `C07-r7m2`: sizes recomputed only when a
+shape table changed).  The header flags are all ok when moreover the size slots `ρ` stores for the
+LODs **not in use** are 0: `update_headers` never rewrites the file-header slots of unparsed LODs.
+
+`hlc` cannot be dropped — `c07_edit_redundant_lodcount_witness`, recorded finding
+`c07.file-lod-count`: `update_headers` bounds its first loop by `file_header.lod_count`, the reader by
+`model_data.header.lod_count`.  `_partial` otherwise as `c07_edit_then_parse_partial`. -/
+theorem c07_edit_redundant_partial (a : AbstractModel) (h : WF a = true) (hcan : Canonical a = true)
+    (ρ : Redundant) (hlc : ρ.fileLodCount a.lodCount = a.lodCount)
+    (v0 : View) (hv0 : view a = some v0)
+    (es : List AEdit) (hne : es ≠ []) (hes : editsOk2 a es = true)
+    (a' : AbstractModel) (ha' : applyEdits a es = some a')
+    (ces : List Edit) (hces : cedits a es = some ces)
+    (h' : WF a' = true) (hlen' : (encodeMdl (relayout a')).length < 4294967296)
+    (hcan' : Canonical a' = true) (hne' : usedNonempty a' = true)
+    (v : View) (hv : view a' = some v) :
+    ∃ m0, fromExisting (encodeMdlR a ρ) = .ok m0 ∧
+      ∀ mE, ces.foldlM Mdl.applyEdit m0 = .ok mE →
+        ∃ buf m1, writeToBuffer mE = .ok buf ∧ fromExisting buf = .ok m1 ∧ m1.view = v ∧
+          m1.fileHeader = mE.fileHeader ∧ m1.modelData = mE.modelData ∧
+          (UnusedEmpty a.lodCount.toNat (ρ.fh (fileHeader a)) →
+            headerFlags m1.fileHeader buf.length m1.lods = HeaderFlags.allOk) := by
+  refine ⟨parsedR a ρ v0, parse_encodeR a h (canonical_noWeightsByte4 a hcan) ρ v0 hv0, fun mE hE => ?_⟩
+  obtain ⟨buf, m1, h1, h2, h3, h4, h5, h6⟩ :=
+    edit_then_parseR a h hcan ρ hlc v0 hv0 es hne hes a' ha' ces hces h' hlen' hcan' hne' v hv mE hE
+  exact ⟨buf, m1, h1, h2, h5, h3, h4, h6⟩
+
+/-- … and under `editsFit` the edit calls on the model parsed from `encodeMdlR a ρ` return -/
+theorem c07_edit_redundant_total_partial (a : AbstractModel) (h : WF a = true)
+    (hcan : Canonical a = true) (ρ : Redundant) (hlc : ρ.fileLodCount a.lodCount = a.lodCount)
+    (v0 : View) (hv0 : view a = some v0)
+    (es : List AEdit) (hne : es ≠ []) (hes : editsOk2 a es = true) (hfit : editsFit a es = true)
+    (a' : AbstractModel) (ha' : applyEdits a es = some a')
+    (ces : List Edit) (hces : cedits a es = some ces)
+    (h' : WF a' = true) (hlen' : (encodeMdl (relayout a')).length < 4294967296)
+    (hcan' : Canonical a' = true) (hne' : usedNonempty a' = true)
+    (v : View) (hv : view a' = some v) :
+    ∃ m0 mE buf m1, fromExisting (encodeMdlR a ρ) = .ok m0 ∧ ces.foldlM Mdl.applyEdit m0 = .ok mE ∧
+      writeToBuffer mE = .ok buf ∧ fromExisting buf = .ok m1 ∧ m1.view = v ∧
+      m1.fileHeader = mE.fileHeader ∧ m1.modelData = mE.modelData ∧
+      (UnusedEmpty a.lodCount.toNat (ρ.fh (fileHeader a)) →
+        headerFlags m1.fileHeader buf.length m1.lods = HeaderFlags.allOk) := by
+  obtain ⟨mE, hE⟩ := edits_return_initialR a h hcan ρ hlc v0 hv0 es hes hfit a' ha' ces hces
+  obtain ⟨buf, m1, h1, h2, h3, h4, h5, h6⟩ :=
+    edit_then_parseR a h hcan ρ hlc v0 hv0 es hne hes a' ha' ces hces h' hlen' hcan' hne' v hv mE hE
+  exact ⟨parsedR a ρ v0, mE, buf, m1, parse_encodeR a h (canonical_noWeightsByte4 a hcan) ρ v0 hv0,
+    hE, h1, h2, h5, h3, h4, h6⟩
+
+/-- stale copies for an edit session on `shapeSample`: every unread `u32` copy of the LOD in use
+`0xDEADBEEF` (stack / runtime size, all LOD-table copies, slot 0 of the file-header arrays), the
+slots of the two unused LODs 0, the file header's LOD count kept -/
+def staleRedundant : Redundant :=
+  { Redundant.const 0xDEADBEEF 1 with
+    vertexOffsets := fun _ => ⟨0xDEADBEEF, 0, 0⟩
+    vertexBufferSize := fun _ => ⟨0xDEADBEEF, 0, 0⟩
+    indexBufferSize := fun _ => ⟨0xDEADBEEF, 0, 0⟩ }
+
+/-- non-vacuity of `c07_edit_redundant_partial` / `_total_partial`: the hypotheses of
+`c07_edit_then_parse_total_partial` on `shapeSample` / `sampleEdits` (see there), `hlc`, the
+unused-slot condition of the flags, and the edit calls on the model parsed from the perturbed file
+return -/
+example :
+    staleRedundant.fileLodCount shapeSample.lodCount = shapeSample.lodCount ∧
+    UnusedEmpty shapeSample.lodCount.toNat (staleRedundant.fh (fileHeader shapeSample)) ∧
+    (match view shapeSample, applyEdits shapeSample sampleEdits, cedits shapeSample sampleEdits with
+     | some v0, some a', some ces =>
+       WF shapeSample && Canonical shapeSample &&
+       editsOk2 shapeSample sampleEdits && editsFit shapeSample sampleEdits && WF a' && Canonical a' &&
+         usedNonempty a' && decide ((encodeMdl (relayout a')).length < 4294967296) &&
+         (view a').isSome && isOk (ces.foldlM Mdl.applyEdit (parsedR shapeSample staleRedundant v0))
+     | _, _, _ => false) = true := by
+  refine ⟨by decide +kernel, ?_, by decide +kernel⟩
+  intro i h1 h3
+  have hi : i = 1 ∨ i = 2 := by
+    have : shapeSample.lodCount.toNat = 1 := by decide +kernel
+    omega
+  rcases hi with rfl | rfl <;> decide +kernel
+
+/-- the file header's LOD count replaced by the constant `c`, every other copy consistent -/
+def lodCountRedundant (c : UInt8) : Redundant := { Redundant.id with fileLodCount := fun _ => c }
+
+/-- parse `shapeSample` stored with `FileHeader.lodCount = c`, replace the mesh's 2 vertices by 3
+(the second edit of `sampleEdits`), write, re-parse: `some (some b)` — everything returned, `b` =
+"the re-parsed view is the view of the edited model"; `some none` — the edit call panicked -/
+def lodCountRun (c : UInt8) : Option (Option Bool) :=
+  let es : List AEdit := (sampleEdits.drop 1).take 1
+  match fromExisting (encodeMdlR shapeSample (lodCountRedundant c)), cedits shapeSample es,
+      applyEdits shapeSample es with
+  | .ok m0, some ces, some a' =>
+    match ces.foldlM Mdl.applyEdit m0 with
+    | .ok mE =>
+      match writeToBuffer mE with
+      | .ok buf =>
+        match fromExisting buf with
+        | .ok m1 => some (some (decide (some m1.view = view a')))
+        | .error _ => none
+      | .error _ => none
+    | .error _ => some none
+  | _, _, _ => none
+
+/-- **`hlc` is necessary — recorded finding `c07.file-lod-count`.**  `shapeSample` (one LOD in use,
+two vertex streams) stored with `FileHeader.lodCount = 0` parses to the same model as the consistent
+file (`c06_parse_redundant_partial`); one `replace_vertices` call (2 → 3 vertices, the second edit of
+`sampleEdits`) returns, `write_to_buffer` returns, the written file re-parses — to a view that is
+**not** the view of the edited model: `update_headers` ran its first loop `0` times, the second
+stream keeps its stale offset `2·16` and now overlaps the first.  With `FileHeader.lodCount = 4` the
+same call panics (`model_data.lods[3]`, three rows).  With 2 or 3 it is harmless (the extra LODs of
+a canonical model are empty: `lodCountRun 1`, `2`, `3` evaluate to `some (some true)`; not part of the
+kernel-checked statement for time).  Same behaviour in the real code (`corpus/C07/kf-file-lod-count*.case`). -/
+theorem c07_edit_redundant_lodcount_witness :
+    lodCountRun 0 = some (some false) ∧ lodCountRun 4 = some none ∧
+    lodCountRun 239 = some none := by
+  decide +kernel
 
 end Physis.C07
